@@ -42,6 +42,7 @@ class Typing:
                         en = None
                         if json and t == "ubyte" and r.random() < 0.5: en, d, opt = "E8", 0, False
                         if json and t == "ushort" and r.random() < 0.5: en, d, opt = "F16", 1, False     # bit flags have no 0 member: default Xa
+                        if json and t == "ulong" and r.random() < 0.5: en, d, opt = "F64", 1, False      # flags above bit 31: see prep_values
                         self.ftype[(ti, f["id"])] = dict(kind="scalar", t=t, default=d, optional=opt, enum=en)
                     else:
                         self.structs.add((f["a"], f["b"])); self.ftype[(ti, f["id"])] = dict(kind="struct", a=f["a"], b=f["b"])
@@ -72,6 +73,7 @@ class Typing:
         if self.json:
             out.append("enum E8:ubyte { Zero = 0, One = 1, Five = 5, Last = 255 }")
             out.append("enum F16:ushort (bit_flags) { Xa, Yb, Zc, Hi = 15 }")
+            out.append("enum F64:ulong (bit_flags) { Xa, Yb, Mid = 32, Top = 63 }")
         for (a, b) in sorted(self.structs):
             out.append("struct %s (force_align: %d) { d:[ubyte:%d]; }" % (sname(a, b), b, a))
         for ti in range(len(self.tables)):
@@ -93,7 +95,7 @@ class Typing:
                     ft = self.ftype[(ti, i)]
                     if ft["kind"] == "scalar":
                         dv = " = null" if ft["optional"] else (" = %s" % self.lit(ft["t"], ft["default"]) if ft["default"] != 0 else "")
-                        lines.append(("f%d" + FIELD_SUFFIX + ":%s%s (id: %d);") % (i, ft.get("enum") or ft["t"], dv if not ft.get("enum") else (" = Xa" if ft.get("enum") == "F16" else ""), i))
+                        lines.append(("f%d" + FIELD_SUFFIX + ":%s%s (id: %d);") % (i, ft.get("enum") or ft["t"], dv if not ft.get("enum") else (" = Xa" if ft.get("enum") in ("F16", "F64") else ""), i))
                     else:
                         lines.append(("f%d" + FIELD_SUFFIX + ":%s (id: %d);") % (i, sname(f["a"], f["b"]), i))
                 elif k == "str": lines.append(("f%d" + FIELD_SUFFIX + ":string (id: %d%s);") % (i, i, req))
@@ -325,6 +327,10 @@ class Prog:
                 if k == "s":
                     ft = self.ty.ftype[(n.ti, f["id"])]
                     v.cdata = fix_scalar_bytes(ft["t"], v.data) if ft["kind"] == "scalar" else v.data
+                    if ft["kind"] == "scalar" and ft.get("enum") == "F64":
+                        # a random 64-bit pattern is never a set of declared flags: one flag, several flags on both sides of bit 31, an undeclared bit, none
+                        combos = [1, 2, 1 << 32, 1 << 63, 3, 1 | 1 << 63, 1 << 32 | 1 << 63, 2 | 1 << 32, 3 | 1 << 32 | 1 << 63, 3 | 1 << 63, 1 << 40, 1 | 1 << 40, 0]
+                        v.cdata = combos[(v.data[0] if v.data else 0) % len(combos)].to_bytes(8, "little")
                     if ft["kind"] == "scalar" and ft["t"] in ("float", "double") and not ft["optional"] and ft["default"] == 0 \
                             and int.from_bytes(v.cdata, "little") == 1 << (8 * len(v.cdata) - 1):
                         self.negzero = True      # -0.0 given where the default is +0.0: see known finding C03 negative-zero-elided
